@@ -1002,6 +1002,17 @@ theorem periodSum_pruneH (bs : List Basket) (b : Basket) (now now' : Nat) (h : A
 example : periodSum 1 100 60 (pruneH [{ wCfg with id := 1, limitsPeriod := 60 }] 90 [((1, 10), 5), ((1, 50), 7), ((2, 10), 9)])
     = 7 := by decide
 
+/-- … but not once the period is extended: an entry pruned under a 60 s period is missing from the 1000 s window that
+an edit introduces afterwards (finding `C11/limits/period-extension-forgets-pruned-history`) -/
+theorem period_extension_counterexample :
+    ¬ (∀ (bs : List Basket) (b : Basket) (now now' p' : Nat) (h : AMap (Nat × Nat)),
+        bs.find? (fun x => x.id == b.id) = some b → now ≤ now' →
+        periodSum b.id now' p' (pruneH bs now h) = periodSum b.id now' p' h) := by
+  intro H
+  have := H [{ wCfg with id := 1, limitsPeriod := 60 }] { wCfg with id := 1, limitsPeriod := 60 } 100 100 1000 [((1, 10), 5)] (by decide) (by decide)
+  revert this
+  decide
+
 /-- pruning touches neither the baskets nor the bank: supply, reserves and recorded amounts are unchanged -/
 theorem endBlock_frame (s : St) : (endBlock s).baskets = s.baskets ∧ (endBlock s).bank = s.bank ∧ (endBlock s).now = s.now :=
   ⟨rfl, rfl, rfl⟩
